@@ -4,12 +4,21 @@ package main
 
 import (
 	"bufio"
+	"fmt"
 	"math/rand"
+	"os"
 )
 
 const hooksAvailable = false
 
+// without the hooks (the guarded file did not compile against the current source, or the tag is
+// off) the hook domains produce no cases: they validate a model of external code (go/types.Eval
+// through evaluateExpression), no property's observation point depends on them
 func runHookDomain(domain string, out *bufio.Writer, rng *rand.Rand, cnt func(q, t int) int) bool {
+	if domain == "evalraw" {
+		fmt.Fprintln(os.Stderr, "harness: hooks not available, domain evalraw skipped")
+		return true
+	}
 	return false
 }
 
